@@ -727,6 +727,10 @@ class Gen:
         if kind == "setshape":
             if any(q != t and self.np.H[q] is T for q in self.np.H):
                 return False  # NumPy handed the same array object to two handles (no-op squeeze): F-C04-1 territory
+            if t in self.disconnected:
+                # a view carried over from an earlier epoch: MyGrad gives it memory of its own (compact) at its first update,
+                # the twin's array stays a strided view - what `.shape` accepts differs from then on (outside C04's epoch)
+                return False
             n = T.size
             opts = [[n], [-1], [1, n], [n, 1]] + [[d, n // d] for d in (2, 3) if n and n % d == 0]
             s = {"k": "setshape", "t": t, "sh": r.choice(opts)}
@@ -928,7 +932,7 @@ class Gen:
                      "val": {"arr": {"sh": bad, "v": [R(1)] * int(np.prod(bad))}}}
         elif kind == "setshape":
             # a shape NumPy cannot give the array without copying (e.g. flattening a transposed view), or of the wrong size
-            c = [q for q in self.live() if self.arr(q).ndim >= 2 and self.arr(q).size > 1
+            c = [q for q in self.live() if self.arr(q).ndim >= 2 and self.arr(q).size > 1 and q not in self.disconnected
                  and not any(z != q and self.np.H[z] is self.arr(q) for z in self.np.H)]
             if not c:
                 return False
